@@ -95,7 +95,8 @@ def run(chk, which="C19"):
         src = os.path.join(d, f"{rid(rep)}_{fl}.cc")
         exe = os.path.join(d, f"{rid(rep)}_{fl}.exe")
         core.write(src, emit_tu(rep, ue, units))
-        rc, se = core.build(src, exe, fl)
+        # (C++20 rewrites comparisons through operator<=>: one of the builds is a C++20 one in every tier)
+        rc, se = core.build(src, exe, fl, std={"G_trap": "c++14", "L_plain": "c++20", "Lub_trap": "c++17", "G_plain": "c++20"}.get(fl, "c++14"))
         if rc != 0:
             return rep, fl, None, se
         rc, so, se = core.sh([exe, str(200 if tier == "quick" else 4000), str(core.sub_seed("c19", rep) % 2 ** 62)], timeout=1800)
